@@ -86,6 +86,7 @@ pub mod c08;
 pub mod c10;
 pub mod c12;
 pub mod c13;
+pub mod c17;
 pub mod c19;
 
 pub fn registry() -> Vec<(&'static str, &'static str, fn())> {
@@ -100,6 +101,7 @@ pub fn registry() -> Vec<(&'static str, &'static str, fn())> {
     c10::register(&mut v);
     c12::register(&mut v);
     c13::register(&mut v);
+    c17::register(&mut v);
     c19::register(&mut v);
     v
 }
